@@ -5,17 +5,18 @@
 #    several evaluations can run side by side); tools/seed_sweep.sh repeats it with `git -C /repo apply`
 # 3) stores everything in /verif/seeded/<pid>_m<i>/
 wt=$1; pid=$2; i=$3; shift 3
+si=${SRC_I:-$i}   # index of the mutant directory inside the worktree (round-B worktrees restart at 1)
 tests="$@"
 d=/verif/seeded/${pid}_m$i
 mkdir -p $d
-cp $wt/mutant_$i/patch.diff $wt/mutant_$i/demo.py $d/ 2>/dev/null
-cp $wt/mutant_$i/notes.md $d/notes.md 2>/dev/null
+cp $wt/mutant_$si/patch.diff $wt/mutant_$si/demo.py $d/ 2>/dev/null
+cp $wt/mutant_$si/notes.md $d/notes.md 2>/dev/null
 export NUMBA_CACHE_DIR=/tmp/nbc_seed_${pid}_$i
 [ -d $wt/sigpyproc.egg-info ] || cp -r /repo/sigpyproc.egg-info $wt/ 2>/dev/null
 cd $wt && git checkout -q -- sigpyproc
-PYTHONPATH=$wt /venv/bin/python $wt/mutant_$i/demo.py > $d/demo_pristine.log 2>&1; p0=$?
+PYTHONPATH=$wt /venv/bin/python $wt/mutant_$si/demo.py > $d/demo_pristine.log 2>&1; p0=$?
 git apply $d/patch.diff || { echo "patch does not apply"; exit 9; }
-PYTHONPATH=$wt /venv/bin/python $wt/mutant_$i/demo.py > $d/demo_patched.log 2>&1; p1=$?
+PYTHONPATH=$wt /venv/bin/python $wt/mutant_$si/demo.py > $d/demo_patched.log 2>&1; p1=$?
 t1=skipped
 if [ -n "$tests" ]; then PYTHONPATH=$wt /venv/bin/python -m pytest -q -p no:cacheprovider $tests > $d/tests_patched.log 2>&1; t1=$?; fi
 cd /verif
